@@ -9,10 +9,16 @@
 //              an entry key – a schedule point at the storage boundary; injected storage: in its Get,
 //              internal/memory: through the verif hook cache.VerifSetMemoryYield)
 //     methods hex list (cfg.Methods as configured; "-" = default)
-//     ops     op|op|…      op = grp;dt;method;keyMat;cc;inv;skip;expGen;status;body;ctype;cenc;headers;hdelay;err
-//                          (err = 1: the origin handler returns fiber.NewError(status, body))
+//     ops     op|op|…      op = grp;dt;method;keyMat;cc;inv;skip;expGen;status;body;ctype;cenc;headers;hdelay;err;f1;f2
+//                          (err = 1: the origin handler returns fiber.NewError(status, body);
+//                           f1 / f2: outcomes of the calls the request makes to the injected storage in its first /
+//                           second critical section, in call order: o = ok, e = the call returns an error, g = a Get of
+//                           an entry returns the stored value cut short (it does not decode; elsewhere = o); "-" = all ok;
+//                           lines with 15 op fields (no f1;f2) are read as fault-free)
 //     scheds  "-" or  grp:t.t.t/grp:t.t   (release order of the threads of a concurrent group)
-//     obs     o|o|…        o  = x;status;body;ctype;cenc;headers;ran;held   |  panic | deadlock | skipped
+//     obs     o|o|…        o  = x;status;body;ctype;cenc;headers;ran;held;snap   |  panic | deadlock | skipped
+//                          (held: sum of the body sizes in the injected storage; snap: its `_body` keys with sizes,
+//                           hexkey=size+…, sorted; "-" = none / internal memory)
 //
 // Under faketime nothing may be written to stdout/stderr and no real sockets are used: requests are
 // fed to app.Handler() on in-memory RequestCtx values; time only advances when every goroutine is
@@ -21,6 +27,7 @@ package main
 
 import (
 	"encoding/hex"
+	"errors"
 	"fmt"
 	"io"
 	"os"
@@ -62,6 +69,7 @@ type opIn struct {
 	hdrs                    [][2]string
 	hdelay                  int
 	err                     bool // the origin handler fails with fiber.NewError(status, body)
+	f1, f2                  string // storage fault schedules of the two critical sections ("" = none)
 }
 
 // ---------------------------------------------------------------------------------------------
@@ -91,7 +99,24 @@ func encOp(o opIn) string {
 		eg = gen.I(o.expGen)
 	}
 	return strings.Join([]string{gen.I(o.grp), gen.I(o.dt), hx(o.method), hx(o.keyMat), hx(o.cc), gen.B(o.inv), gen.B(o.skip), eg,
-		gen.I(o.status), hx(o.body), hx(o.ctype), hx(o.cenc), encHdrs(o.hdrs), gen.I(o.hdelay), gen.B(o.err)}, ";")
+		gen.I(o.status), hx(o.body), hx(o.ctype), hx(o.cenc), encHdrs(o.hdrs), gen.I(o.hdelay), gen.B(o.err), encFaults(o.f1), encFaults(o.f2)}, ";")
+}
+
+func encFaults(f string) string {
+	if f == "" {
+		return "-"
+	}
+	return f
+}
+
+func decFaults(f string) string {
+	if f == "-" {
+		return ""
+	}
+	if len(f) == 0 || len(f) > 16 || strings.Trim(f, "oeg") != "" {
+		bad("faults %q", f)
+	}
+	return f
 }
 
 func encOps(ops []opIn) string {
@@ -172,13 +197,16 @@ func decOps(s string) []opIn {
 	var ops []opIn
 	for _, e := range strings.Split(s, "|") {
 		f := strings.Split(e, ";")
-		if len(f) != 15 {
+		if len(f) != 15 && len(f) != 17 {
 			bad("op fields")
 		}
 		o := opIn{grp: atoi(f[0]), dt: atoi(f[1]), method: unhex(f[2]), keyMat: unhex(f[3]), cc: unhex(f[4]), inv: bit(f[5]),
 			skip: bit(f[6]), expGen: -1, status: atoi(f[8]), body: unhex(f[9]), ctype: unhex(f[10]), cenc: unhex(f[11]), hdelay: atoi(f[13]), err: bit(f[14])}
 		if f[7] != "n" {
 			o.expGen = atoi(f[7])
+		}
+		if len(f) == 17 {
+			o.f1, o.f2 = decFaults(f[15]), decFaults(f[16])
 		}
 		if f[12] != "-" {
 			for _, kv := range strings.Split(f[12], "+") {
@@ -256,6 +284,9 @@ func validate(c cfgIn, ops []opIn, scheds map[int][]int) {
 		if o.err && (o.ctype != "" || o.cenc != "" || len(o.hdrs) != 0 || o.body == "" || o.status < 400) {
 			bad("error op")
 		}
+		if !c.ext && (o.f1 != "" || o.f2 != "") {
+			bad("faults need an injected storage")
+		}
 		names := map[string]bool{}
 		for _, kv := range o.hdrs {
 			if !isHdr(kv[0]) || names[kv[0]] || strings.ContainsAny(kv[1], "\r\n") || kv[1] == "" || kv[1] != strings.TrimSpace(kv[1]) {
@@ -324,21 +355,44 @@ type memStore struct {
 	w    *world // for the storage yield point
 }
 
+var errInjected = errors.New("injected storage fault")
+
+// fault: the outcome scheduled for the storage call the current request makes now ('o' when the schedule of
+// its section is used up, or the caller is not a request of the history)
+func (s *memStore) fault() byte {
+	if s.w == nil {
+		return 'o'
+	}
+	id, ok := s.w.curOp()
+	if !ok {
+		return 'o'
+	}
+	return s.w.nextFault(id)
+}
+
 func (s *memStore) Get(k string) ([]byte, error) {
 	isBody := strings.HasSuffix(k, "_body")
+	f := s.fault()
 	// schedule point BEFORE the body of a hit is read: whatever happens to the key between the entry
 	// lookup and this Get (eviction, expiry, invalidation, a newer response) shows in the reply
 	if s.w != nil && s.w.cfg.sy && isBody {
-		if id, ok := s.w.curOp(); ok {
+		if id, ok := s.w.curGroupOp(); ok {
 			s.w.yield(id, "B")
 		}
 	}
 	v := s.get(k)
 	// schedule point at the storage boundary: the entry has been read, the caller has not seen it yet
 	if s.w != nil && s.w.cfg.sy && !isBody {
-		if id, ok := s.w.curOp(); ok {
+		if id, ok := s.w.curGroupOp(); ok {
 			s.w.yield(id, "G")
 		}
+	}
+	switch {
+	case f == 'e':
+		return nil, errInjected
+	case f == 'g' && !isBody && len(v) > 0:
+		// the stored value cut short: a strict prefix of a msgp map never decodes
+		return v[:len(v)-1-(len(v)-1)%3], nil
 	}
 	return v, nil
 }
@@ -353,6 +407,9 @@ func (s *memStore) get(k string) []byte {
 	return append([]byte(nil), e.val...)
 }
 func (s *memStore) Set(k string, v []byte, ttl time.Duration) error {
+	if s.fault() == 'e' {
+		return errInjected
+	}
 	s.mu.Lock()
 	defer s.mu.Unlock()
 	var expAt int64
@@ -363,6 +420,9 @@ func (s *memStore) Set(k string, v []byte, ttl time.Duration) error {
 	return nil
 }
 func (s *memStore) Delete(k string) error {
+	if s.fault() == 'e' {
+		return errInjected
+	}
 	s.mu.Lock()
 	defer s.mu.Unlock()
 	delete(s.m, k)
@@ -384,6 +444,28 @@ func (s *memStore) held() int {
 	return n
 }
 
+// snap: the `_body` keys the storage holds right now (without the suffix) with the sizes of their values
+func (s *memStore) snap() string {
+	s.mu.Lock()
+	defer s.mu.Unlock()
+	now := time.Now().Unix()
+	var ks []string
+	for k, e := range s.m {
+		if strings.HasSuffix(k, "_body") && !(e.expAt != 0 && now >= e.expAt) {
+			ks = append(ks, strings.TrimSuffix(k, "_body"))
+		}
+	}
+	if len(ks) == 0 {
+		return "-"
+	}
+	sort.Strings(ks)
+	p := make([]string, len(ks))
+	for i, k := range ks {
+		p[i] = hx(k) + "=" + gen.I(len(s.m[k+"_body"].val))
+	}
+	return strings.Join(p, "+")
+}
+
 // ---------------------------------------------------------------------------------------------
 // running a history
 
@@ -396,7 +478,9 @@ type world struct {
 	ran   []bool
 	gate  []chan struct{} // non-nil while the op is part of a running concurrent group
 	park  []string        // where the thread is parked ("" = not parked)
-	goid  map[uint64]int  // goroutine → op it is serving (concurrent groups only)
+	goid  map[uint64]int  // goroutine → op it is serving
+	n1    []int           // storage calls the op has made in its first / second critical section
+	n2    []int
 }
 
 // curGoid parses the current goroutine's id out of its stack header ("goroutine 123 [running]:").
@@ -411,13 +495,39 @@ func curGoid() uint64 {
 	return id
 }
 
-// curOp: the op served by the calling goroutine, when it belongs to a running concurrent group
+// curOp: the op served by the calling goroutine
 func (w *world) curOp() (int, bool) {
 	g := curGoid()
 	w.mu.Lock()
 	defer w.mu.Unlock()
 	id, ok := w.goid[g]
 	return id, ok
+}
+
+// curGroupOp: the op served by the calling goroutine, when it belongs to a running concurrent group
+func (w *world) curGroupOp() (int, bool) {
+	g := curGoid()
+	w.mu.Lock()
+	defer w.mu.Unlock()
+	id, ok := w.goid[g]
+	return id, ok && w.gate[id] != nil
+}
+
+// nextFault: the scheduled outcome of the next storage call of op id (first section until its origin handler
+// has been invoked, second section afterwards)
+func (w *world) nextFault(id int) byte {
+	w.mu.Lock()
+	defer w.mu.Unlock()
+	sched, n := w.ops[id].f1, &w.n1[id]
+	if w.ran[id] {
+		sched, n = w.ops[id].f2, &w.n2[id]
+	}
+	i := *n
+	*n = i + 1
+	if i < len(sched) {
+		return sched[i]
+	}
+	return 'o'
 }
 
 func (w *world) yield(id int, where string) {
@@ -442,7 +552,7 @@ func opID(c fiber.Ctx) int {
 
 func build(c cfgIn, ops []opIn) *world {
 	w := &world{cfg: c, ops: ops, ran: make([]bool, len(ops)), gate: make([]chan struct{}, len(ops)), park: make([]string, len(ops)),
-		goid: map[uint64]int{}}
+		goid: map[uint64]int{}, n1: make([]int, len(ops)), n2: make([]int, len(ops))}
 	conf := cache.Config{MaxBytes: uint(c.maxBytes), Expiration: time.Duration(c.expiration) * time.Second,
 		StoreResponseHeaders: c.storeHeaders, CacheControl: c.ccOut, Methods: c.methods}
 	if c.ext {
@@ -453,7 +563,7 @@ func build(c cfgIn, ops []opIn) *world {
 	cache.VerifSetMemoryYield(nil)
 	if !c.ext && c.sy {
 		cache.VerifSetMemoryYield(func(string) {
-			if id, ok := w.curOp(); ok {
+			if id, ok := w.curGroupOp(); ok {
 				w.yield(id, "G")
 			}
 		})
@@ -558,9 +668,9 @@ func (w *world) serve(id int) (obs string) {
 
 func (w *world) heldField() string {
 	if w.st == nil {
-		return "-"
+		return "-;-"
 	}
-	return gen.I(w.st.held())
+	return gen.I(w.st.held()) + ";" + w.st.snap()
 }
 
 const deadlockAfter = 20 * time.Second // virtual
@@ -582,7 +692,17 @@ func runHistory(c cfgIn, ops []opIn, scheds map[int][]int) string {
 		}
 		if o.grp == 0 {
 			done := make(chan string, 1)
-			go func(id int) { done <- w.serve(id) }(i)
+			go func(id int) {
+				gid := curGoid()
+				w.mu.Lock()
+				w.goid[gid] = id
+				w.mu.Unlock()
+				r := w.serve(id)
+				w.mu.Lock()
+				delete(w.goid, gid)
+				w.mu.Unlock()
+				done <- r
+			}(i)
 			select {
 			case r := <-done:
 				if r == "panic" {
